@@ -27,23 +27,31 @@ package rib
 //@ pred resultsWF(rs []*OpResult) = forall i in 0..len(rs) :: rs[i] != nil
 
 //@ unit RIB.AddEntry
-//@ requires[holders] holdersNonNil(r)
-//@ ensures[holders] holdersNonNil(r)
-//@ requires r != nil && op != nil
+//@ requires holdersWF(r) && pendingWF(r) && opWF(op) && ribQuiet(r) && unixTS != nil
 //@ ensures[fatal] result2 != nil ==> len(result0) == 0 && len(result1) == 0
 //@ ensures[wf] resultsWF(result0) && resultsWF(result1)
-//@ assigns ribState
+//@ ensures[rib-wf] holdersWF(r) && pendingWF(r) && holdersNonNil(r)
+//@ ensures[ids-known] newIDsKnown(result0, 0, op.GetId(), old(dom(r.pendingEntries))) && newIDsKnown(result1, 0, op.GetId(), old(dom(r.pendingEntries)))
+//@ ensures[verdict-final] newIDsNotHeld(r, result0, 0) && newIDsNotHeld(r, result1, 0)
+//@ ensures[held-shrinks] forall k in dom(r.pendingEntries) :: k in old(dom(r.pendingEntries)) || k == op.GetId()
+//@ ensures[answered-or-held] result2 == nil && ni != "" ==> (exists i in 0..len(result0) :: result0[i].ID == op.GetId())
+//@    || (exists i in 0..len(result1) :: result1[i].ID == op.GetId()) || op.GetId() in dom(r.pendingEntries)
+//@ assigns ribState, spawned, hookCount
 //@ props C01 C02 C06 C12:safety
 
 //@ unit RIB.DeleteEntry
-//@ requires[holders] holdersNonNil(r)
-//@ ensures[holders] holdersNonNil(r)
-//@ requires r != nil
+//@ requires holdersWF(r) && ribQuiet(r) && unixTS != nil && (op != nil ==> opWF(op))
 //@ ensures[wf] resultsWF(result0) && resultsWF(result1)
+//@ ensures[rib-wf] holdersWF(r) && holdersNonNil(r)
 //@ ensures[one-verdict] result2 == nil ==> len(result0) + len(result1) == 1
-//@ ensures[own-id] result2 == nil ==> forall i in 0..len(result0) :: result0[i].ID == op.GetId()
-//@ ensures[own-id-fail] result2 == nil ==> forall i in 0..len(result1) :: result1[i].ID == op.GetId()
-//@ assigns ribState
+//@ ensures[own-id] forall i in 0..len(result0) :: result0[i].ID == op.GetId()
+//@ ensures[own-id-fail] forall i in 0..len(result1) :: result1[i].ID == op.GetId()
+//@ ensures[held-untouched] dom(r.pendingEntries) == old(dom(r.pendingEntries))
+//@ assert at "oks = append(oks, &OpResult{" [ack-removed] opRemoved(niR, op) && removed
+//@ assert at "Error: err.Error()," [failed-no-trace] keptAll(niR.r.Afts)
+//@ loop 1 at "range originalNHG.NextHop" invariant holdersWF(r) && registered(r, niR) && opRemoved(niR, op) && removed && originalNHG != nil
+//@ loop 1 invariant dom(r.pendingEntries) == old(dom(r.pendingEntries))
+//@ assigns ribState, spawned, hookCount
 //@ props C01 C03 C06 C12:safety
 
 //@ unit RIB.KnownNetworkInstances
@@ -77,6 +85,7 @@ package rib
 //@ pred tablesAllocated(A *aft.Afts) = nilOrAllocated(A.Ipv4Entry) && nilOrAllocated(A.Ipv6Entry) && nilOrAllocated(A.LabelEntry)
 //@   && nilOrAllocated(A.NextHopGroup) && nilOrAllocated(A.NextHop)
 
+//@ pred wrap32(x Int) = ite(x < 4294967296, x, x % 4294967296)
 //@ pred wrap64(x Int) = ite(x < 18446744073709551616, x, x - 18446744073709551616)
 
 //@ unit RIBHolder.incNHGRefCount
@@ -230,6 +239,7 @@ package rib
 //@ ensures !(id in dom(r.pendingEntries))
 //@ assigns r.pendingEntries[id]
 //@ props C02 C06 C11:lock C12:safety
+
 // ---- generated by /verif/tools/gen_rib_contracts.py (five AFT tables, one shape) ----
 // separateAfts: the candidate shares no table with the installed RIB (it is freshly built by candidateRIB).
 //@ pred separateAfts(C *aft.Afts, A *aft.Afts) = C != A && (C.Ipv4Entry == nil || C.Ipv4Entry != A.Ipv4Entry) && (C.Ipv6Entry == nil || C.Ipv6Entry != A.Ipv6Entry) && (C.LabelEntry == nil || C.LabelEntry != A.LabelEntry) && (C.NextHopGroup == nil || C.NextHopGroup != A.NextHopGroup) && (C.NextHop == nil || C.NextHop != A.NextHop)
@@ -476,12 +486,12 @@ package rib
 //@ ensures[nil] e == nil ==> !result0 && result2 != nil
 //@ ensures[err-not-removed] result2 != nil ==> !result0
 //@ ensures[no-trace] !result0 ==> kept_mpls(r.r.Afts) && hookCount == old(hookCount)
-//@ ensures[removed] result0 ==> e != nil && !(boxed(aft.UnionUint32, e.GetLabelUint64() % 4294967296) in dom(r.r.Afts.LabelEntry)) && othersKept_mpls(r.r.Afts, boxed(aft.UnionUint32, e.GetLabelUint64() % 4294967296))
+//@ ensures[removed] result0 ==> e != nil && !(boxed(aft.UnionUint32, wrap32(e.GetLabelUint64())) in dom(r.r.Afts.LabelEntry)) && othersKept_mpls(r.r.Afts, boxed(aft.UnionUint32, wrap32(e.GetLabelUint64())))
 //@ ensures[named-key-only] result0 ==> e.GetLabelUint64() < 4294967296
-//@ ensures[orig] result0 ==> result1 == old(r.r.Afts.LabelEntry[boxed(aft.UnionUint32, e.GetLabelUint64() % 4294967296)])
+//@ ensures[orig] result0 ==> result1 == old(r.r.Afts.LabelEntry[boxed(aft.UnionUint32, wrap32(e.GetLabelUint64()))])
 //@ ensures[hook] result0 ==> hookCount == old(hookCount) + ite(old(r.postChangeHook) != nil, 1, 0)
 //@ ensures[wf] holderWF(r)
-//@ assigns r.r.Afts.LabelEntry[boxed(aft.UnionUint32, e.GetLabelUint64() % 4294967296)], hookCount
+//@ assigns r.r.Afts.LabelEntry[boxed(aft.UnionUint32, wrap32(e.GetLabelUint64()))], hookCount
 //@ props C01 C03 C16 C12:safety
 
 //@ unit RIBHolder.DeleteNextHopGroup
@@ -772,6 +782,23 @@ package rib
 //@ assert at "Error: opErr.Error()" [failed-no-trace] keptAll(niR.r.Afts)
 //@ assert at "has unresolved dependencies" [failed-no-trace] keptAll(niR.r.Afts) && r.disableForwardReferences
 //@ assert at "r.addPending(op.GetId()" [held-no-trace] keptAll(niR.r.Afts) && !r.disableForwardReferences
+//@ loop 1 modular
+//@ at "err := r.addEntryInternal(e.ni" ghost oksBefore = *oks
+//@ at "err := r.addEntryInternal(e.ni" ghost failsBefore = *fails
+//@ at "err := r.addEntryInternal(e.ni" ghost pendBefore = dom(r.pendingEntries)
+//@ at "err := r.addEntryInternal(e.ni" ghost stackBefore = dom(installStack)
+//@ at "err := r.addEntryInternal(e.ni" ghost stackValsBefore = vals(installStack)
+//@ assert at "if err != nil {" [lemma-prefix] prefixKept(*oks, oksBefore) && prefixKept(*fails, failsBefore) && prefixKept(oksBefore, old(*oks)) && prefixKept(failsBefore, old(*fails))
+//@ assert at "if err != nil {" [lemma-held] (forall k in pendBefore :: k in old(dom(r.pendingEntries))) && e.op.GetId() in old(dom(r.pendingEntries))
+//@ assert at "if err != nil {" [lemma-new-known] newIDsKnown(*oks, len(oksBefore), e.op.GetId(), pendBefore) && newIDsKnown(*fails, len(failsBefore), e.op.GetId(), pendBefore)
+//@ assert at "if err != nil {" [lemma-old-known] (forall i in old(len(*oks))..len(oksBefore) :: (*oks)[i].ID == op.GetId() || (*oks)[i].ID in old(dom(r.pendingEntries)))
+//@   && (forall i in old(len(*fails))..len(failsBefore) :: (*fails)[i].ID == op.GetId() || (*fails)[i].ID in old(dom(r.pendingEntries)))
+//@ assert at "if err != nil {" [lemma-known] newIDsKnown(*oks, old(len(*oks)), op.GetId(), old(dom(r.pendingEntries))) && newIDsKnown(*fails, old(len(*fails)), op.GetId(), old(dom(r.pendingEntries)))
+//@ assert at "if err != nil {" [lemma-stack-monotone] forall k in stackBefore :: stackValsBefore[k] ==> installStack[k]
+//@ assert at "if err != nil {" [lemma-old-stacked-before] r.disableForwardReferences || ((forall i in old(len(*oks))..len(oksBefore) :: oksBefore[i].ID in stackBefore && stackValsBefore[oksBefore[i].ID])
+//@   && (forall i in old(len(*fails))..len(failsBefore) :: failsBefore[i].ID in stackBefore && stackValsBefore[failsBefore[i].ID]))
+//@ assert at "if err != nil {" [lemma-old-stacked] r.disableForwardReferences || ((forall i in old(len(*oks))..len(oksBefore) :: installStack[(*oks)[i].ID]) && (forall i in old(len(*fails))..len(failsBefore) :: installStack[(*fails)[i].ID]))
+//@ assert at "if err != nil {" [lemma-stacked] r.disableForwardReferences || (newIDsStacked(*oks, old(len(*oks)), installStack) && newIDsStacked(*fails, old(len(*fails)), installStack))
 //@ loop 1 at "range r.getPending()" invariant prefixKept(*oks, old(*oks)) && prefixKept(*fails, old(*fails))
 //@ loop 1 invariant resultsWF(*oks) && resultsWF(*fails) && holdersWF(r) && pendingWF(r) && stackNotHeld(r, installStack) && ribQuiet(r)
 //@ loop 1 invariant newIDsKnown(*oks, old(len(*oks)), op.GetId(), old(dom(r.pendingEntries))) && newIDsKnown(*fails, old(len(*fails)), op.GetId(), old(dom(r.pendingEntries)))
